@@ -25,7 +25,7 @@ PROBES = ['trashed', 'untouched', 'home-trash', 'volume-trash', 'collision-suffi
 
 
 def gen(rng):
-    L = G.make_layout(rng, xdg=rng.choice(['unset', 'unset', 'set', 'link']))
+    L = G.make_layout(rng, xdg=rng.choice(['unset', 'unset', 'set', 'link']), homename=rng.choice(G.ODD_HOMES) if rng.random() < 0.15 else 'u')
     steps = L['steps']
     home = L['home']
     uid = L['uid']
